@@ -304,6 +304,8 @@ pub struct SimPair {
     pub trace: Trace,
     pub record_wire: bool,
     pub record_stats: bool,
+    /// snapshots are switched off after this many steps of a progress-based tail
+    pub tail_stats_steps: u32,
     pub fair: bool,
     seed: u64,
     latency_us: [u32; 2],
@@ -338,6 +340,7 @@ impl SimPair {
             trace: Trace::default(),
             record_wire: true,
             record_stats: true,
+            tail_stats_steps: u32::MAX,
             fair: false,
             seed: sc.seed,
             latency_us: [sc.links[0].latency_us, sc.links[1].latency_us],
@@ -589,7 +592,12 @@ impl SimPair {
         let step = step_us.max(1);
         let mut last_sig = self.progress_signature();
         let mut last_progress_us = self.now_us;
+        let mut iterations = 0u32;
         loop {
+            iterations += 1;
+            if iterations > self.tail_stats_steps {
+                self.record_stats = false;
+            }
             // the generated cadence is used for the first 30 virtual seconds; afterwards at least
             // 20 ms, and at least 100 ms while nothing has moved for 5 s (any cadence is a valid
             // schedule); this keeps hour-long crawls at the TFRC floor rate affordable
